@@ -155,7 +155,13 @@ func execC08(t *testing.T, raw json.RawMessage, res *Result) {
 			ancW[a] = true
 		}
 	}
-	budget := int64(64*(n+1)*(n+1)) * int64(len(p.Haves)+2)
+	// every have and every want may cost one walk over the history (each commit read a
+	// bounded number of times per walk); anything quadratic in n per have is a blow-up
+	nh := 0
+	for _, hs := range p.Haves {
+		nh += len(hs)
+	}
+	budget := int64(8*(n+1)) * int64(nh+len(p.Wants)+len(p.Refs)+4)
 
 	for it := 0; it < rep; it++ {
 		before := w.Steps
